@@ -952,6 +952,9 @@ pub fn exhaustive_family(prop: &str, tier: &str, rng: &mut Rng, shard: (usize, u
             for d in subscription_graph_cases(rng, budget(tier, 2000, 40000)) {
                 docs.push(("subscription-graphs".to_string(), d.print()));
             }
+            for d in operation_mix_cases(rng, budget(tier, 2500, 50000)) {
+                docs.push(("operation-mixes".to_string(), d.print()));
+            }
         }
         "C05" => {
             for d in merge_cases(rng, budget(tier, 1500, 40000)) {
